@@ -1694,6 +1694,15 @@ def c20_extra(tier, rnd):
                               + [{"c": "sleep", "ms": 1000}] * 3 + [{"c": "ack", "n": 1}, {"c": "poll", "s": 1}]
                               + [{"c": "sleep", "ms": 1000}] * 6,
                          src="client_ping_busy"))
+        # an idle connection (keep-alive armed) goes through a write back-pressure episode caused by the server's own
+        # traffic (transport stalled, a publish above the high watermark, transport released) and stays silent:
+        # the keep-alive timeout is still due, 3 s after the last packet of the peer (CONNECT at tick 0)
+        runs.append(dict(cfg=dict(role="server", ver=ver, wr_high=32, wr_low=8),
+                         cmds=[{"c": "in", "p": {"t": "connect", "ka": 2}}, {"c": "mark", "k": "expect_ka", "n": 1500, "r": 5900},
+                               {"c": "sleep", "ms": 1000}, {"c": "cap", "n": 0},
+                               {"c": "send", "s": 1, "k": "q0", "plen": 200}, {"c": "sleep", "ms": 500}, {"c": "cap"}]
+                              + [{"c": "sleep", "ms": 1000}] * 6,
+                         src="backpressure_idle"))
         # keep-alive 0 and a server override
         runs.append(dict(cfg=dict(role="server", ver=ver, ack_keep_alive=2),
                          cmds=[{"c": "in", "p": {"t": "connect", "ka": 20}}, {"c": "mark", "k": "expect_ka", "n": 500, "r": 3900}] + [{"c": "sleep", "ms": 1000}] * 5,
